@@ -540,6 +540,9 @@ func (fr *Frame) valueInstr(st *State, v ssa.Value) {
 				vc.assumeZero(st, vc.elemAddr(r, IntLit(i)), at.Elem())
 			}
 		} else {
+			if _, isStruct := structOf(et); isStruct {
+				vc.sc.Axiom(Eq(sx("okind", sx("root", r)), "0"))
+			}
 			vc.assumeZero(st, r, et)
 		}
 	case *ssa.BinOp:
